@@ -50,6 +50,17 @@ def grd_width(ctx, roots, clause):
                 continue
             n_sites += 1
             wexpr = parts[1].value
+            from ..forms import resolved_text
+            wt = resolved_text(fn, wexpr, c)
+            exact = False
+            if isinstance(wexpr, ast.Name):
+                from ..dataflow import defs_reaching as _dr
+                dv = [d.value for d in _dr(fn, wexpr.id, c) if d.value is not None]
+                exact = bool(dv) and all("str_len()" in norm(v) and norm(v).endswith(".max()") for v in dv)
+            ctx.ob("GRD-width", fn, f"width of {norm(c)} is the maximal string length", c, exact,
+                   "the fixed width is the length of the longest string, so no element is truncated" if exact else
+                   f"the fixed width {wt} is not the maximal string length itself: longer strings are truncated by the cast and distinct "
+                   f"values compare equal in sort / rank / unique", clause=clause)
             lb = lower_bound(repo, fn, wexpr, c)
             ok = lb is not None and lb >= 1
             ctx.ob("GRD-width", fn, norm(c), c, ok,
